@@ -375,6 +375,38 @@ m('heap-insert-link-page-unpinned-clean', ['C13', 'C09'], TH, '''			newPage.Init
 			t.bpm.UnpinPage(currentPage.GetPageID(), true)''', '''			newPage.Init(p.GetPageID(), currentPageID, t.logManager, t.lockManager, txn, false)
 			t.bpm.UnpinPage(currentPage.GetPageID(), false)''', ['C13-R8 [(*storage/access.TableHeap).InsertTuple:modified-page-unpinned-clean]'])
 m('hash-iterator-unpins-clean', ['C13', 'C07'], 'lib/container/hash/linear_probe_hash_table_iterator.go', '''		itr.bpm.UnpinPage(itr.blockID, true)''', '''		itr.bpm.UnpinPage(itr.blockID, false)''', ['C13-R8 [(*container/hash.LinearProbeHashTable).Remove:modified-page-unpinned-clean]'])
+SL = 'lib/container/skip_list/skip_list.go'
+SLB = 'lib/storage/page/skip_list_page/skip_list_block_page.go'
+SLI = 'lib/container/skip_list/skip_list_iterator.go'
+m('lsn-keep-record-not-appended', ['C01', 'C20'], SD, """		shi.logManager.AppendLogRecord(lsnKeepRecord)
+""", """		_ = lsnKeepRecord
+""", ['C01-R8 [NewSamehadaDB:numbered-record-after-GC]'])
+m('skiplist-getvalue-keeps-rlatch', ['C17'], SL, """	sl.bpm.UnpinPage(node.GetPageID(), false)
+	node.RemoveRLatchRecord(key.ToInteger())
+	node.RUnlatch()
+""", """	sl.bpm.UnpinPage(node.GetPageID(), false)
+	node.RemoveRLatchRecord(key.ToInteger())
+""", ['C17-R4 [(*container/skip_list.SkipList).GetValue:hand-over-latches]'])
+m('skiplist-getvalue-keeps-pin', ['C17', 'C14'], SL, """	sl.bpm.UnpinPage(node.GetPageID(), false)
+	node.RemoveRLatchRecord(key.ToInteger())
+	node.RUnlatch()
+""", """	node.RemoveRLatchRecord(key.ToInteger())
+	node.RUnlatch()
+""", ['C17-R4 [(*container/skip_list.SkipList).GetValue:hand-over-latches]'])
+m('skiplist-insert-nosplit-keeps-wlatch', ['C17'], SLB, """			bpm.UnpinPage(node.GetPageID(), true)
+			node.WUnlatch()
+			if common.EnableDebug {
+				common.ShPrintf(common.DebugInfo, "SkipListBlockPage::Insert: finish (no split). key=%v\\n", key.ToIFValue())""", """			bpm.UnpinPage(node.GetPageID(), true)
+			if common.EnableDebug {
+				common.ShPrintf(common.DebugInfo, "SkipListBlockPage::Insert: finish (no split). key=%v\\n", key.ToIFValue())""", ['C17-R4 [(*storage/page/skip_list_page.SkipListBlockPage).Insert:hand-over-latches]'])
+m('skiplist-iterator-end-key-keeps-rlatch', ['C17'], SLI, """			itr.bpm.UnpinPage(itr.curNode.GetPageID(), false)
+			itr.curNode.RemoveRLatchRecord(-10000)
+			itr.curNode.RUnlatch()
+			break""", """			itr.bpm.UnpinPage(itr.curNode.GetPageID(), false)
+			itr.curNode.RemoveRLatchRecord(-10000)
+			break""", ['C17-R4 [(*container/skip_list.SkipListIterator).initRIDList:hand-over-latches]'])
+m('skiplist-iterator-hop-keeps-prev-rlatch', ['C17'], SLI, """			prevNode.RemoveRLatchRecord(-10000)
+			prevNode.RUnlatch()""", """			prevNode.RemoveRLatchRecord(-10000)""", ['C17-R4 [(*container/skip_list.SkipListIterator).initRIDList:hand-over-latches]'])
 # drop the one that needs a helper that does not exist
 M = [x for x in M if x['id'] != 'insert-executor-unlocks-early']
 os.chdir(os.path.dirname(os.path.abspath(__file__)) + '/..')
